@@ -260,7 +260,7 @@ class AsyncIOClient(ABC):
                     await self.writer.drain()
                     self.logger.debug(f"Sent: {msg.hex()}")
 
-        except ValueError as ve:
+        except (ValueError, NotImplementedError) as ve:
                 self.logger.warning(f"Failed to encode message. Error {ve}")
         except Exception as ex:
             if self._state != State.CLOSED:
